@@ -65,7 +65,10 @@ func genExt(r *vu.Rng, proto int, forXreq, wild bool) ext {
 			e.hasIf = true
 			e.ifIdx = 1 + int(r.Boundary(31))
 			attrs |= 8
-			if r.Bool() {
+			if r.Chance(1, 12) {
+				e.ifName = r.BytesFrom("abcdefghijklmnopqrstuvwxyz", r.Range(64, 130)) // longer than the name field
+				attrs |= 2
+			} else if r.Bool() {
 				e.ifName = genName(r, 63)
 				if len(e.ifName) > 0 {
 					attrs |= 2
@@ -117,6 +120,9 @@ func genExt(r *vu.Rng, proto int, forXreq, wild bool) ext {
 		switch e.typ {
 		case 1:
 			e.name = genName(r, 255)
+			if r.Chance(1, 10) {
+				e.name = r.BytesFrom("abcdefghijklmnopqrstuvwxyz", r.Range(256, 420)) // longer than the object can carry
+			}
 		case 2:
 			e.index = int(r.Boundary(32))
 		case 3:
@@ -422,6 +428,17 @@ func gen(r *vu.Rng, i int) []string {
 			s := genHdr(r)
 			b = append(append([]byte{byte(0x40 | (5 + len(s.options)/4))}, r.Bytes(19)...), s.options...)
 			b = mutate(r, b)
+		}
+		if r.Chance(1, 3) {
+			s1, s2 := genHdr(r), genHdr(r)
+			if r.Bool() {
+				s2.options, s2.length = nil, 20
+			}
+			mk := func(s hdrSpec) []byte {
+				n := len(s.options) / 4 * 4
+				return append(append([]byte{byte(0x40 | (5 + n/4))}, r.Bytes(19)...), s.options[:n]...)
+			}
+			return []string{"phdr2 " + vu.Hex(mk(s1)) + " " + vu.Hex(mk(s2))}
 		}
 		return []string{"phdr " + vu.Hex(b)}
 	case x < 999:
